@@ -147,26 +147,42 @@ def rule_correspondence(repo, rule):
                                "truediv/divis/%s" % norm(h)[:30])
     # remainder
     dm = lc.methods["__divmod__"]
-    v = Valuer({dm.params[0]: P.sym("s"), dm.params[1]: P.sym("d")})
-    try:
-        env = {}
-        q = None
-        for a in ast.walk(dm.node):
-            if isinstance(a, ast.Assign) and isinstance(a.targets[0], ast.Name) and isinstance(a.value, (ast.Call, ast.BinOp)):
-                if norm(a.targets[0]) == dm.params[1]:
-                    continue
-                v.env[norm(a.targets[0])] = v.val(a.value)
-        rets = [n for n in rets_of(dm) if isinstance(n.value, ast.Tuple)]
-        if rets:
-            qv, rv = v._p(rets[0].value.elts[0]), v._p(rets[0].value.elts[1])
-            fd = P.sym("floordiv(s,d)")
-            if qv == fd and rv == P.sym("s") - fd * P.sym("d"):
-                rule.ok(dm.loc(rets[0]), dm.fq, "returns (s // d, s - (s // d)*d)", "Python's floor division and modulo")
-            else:
-                rule.violation(dm.loc(rets[0]), dm.fq, "returns (%s, %s)" % (qv, rv), "quotient/remainder hints are not Python's floor "
-                               "division and modulo", "divmod/hints")
-    except (Undecidable, NeedCase) as e:
-        rule.undecided(dm.loc(), dm.fq, "divmod hints", str(e))
+    # path by path with checks on (an error-suppressed arm has no Python value to agree with): the pair returned is
+    # (s // d, s - (s // d) * d) in every case the tests on the way split
+    from ..hints import paths_to as _ptdm, all_cases as _acdm
+    rets = [n for n in rets_of(dm) if isinstance(n.value, ast.Tuple) and len(n.value.elts) == 2]
+    fd = P.sym("floordiv(s,d)")
+    verdict, detail = None, ""
+    for r_ in rets:
+        for pth in _ptdm(dm.node, r_):
+            if any(norm(t_) == "ignore_errors()" and pol_ for t_, pol_ in pth.conds):
+                continue
+            def _assume(pth=pth):
+                v_ = Valuer({dm.params[0]: P.sym("s"), dm.params[1]: P.sym("d")})
+                v_.assume(ast.parse("ignore_errors()", mode="eval").body, False)
+                v_.assume(ast.parse("is_guard()", mode="eval").body, True)
+                pre_assume(v_, pth)
+                return v_
+            def _build(v_, pth=pth, r_=r_):
+                replay(v_, pth)
+                qv, rv = v_._p(r_.value.elts[0]), v_._p(r_.value.elts[1])
+                # two residues packed into one polynomial identity: both must vanish
+                return (qv - fd) * P.sym("__q__") + (rv - (P.sym("s") - fd * P.sym("d"))) * P.sym("__r__")
+            for desc, p_, _v in _acdm(_build, _assume):
+                if isinstance(p_, str):
+                    if verdict is None:
+                        verdict, detail = "undecided", p_
+                elif not p_.is_zero():
+                    verdict, detail = "violation", "%s when {%s}" % (p_, ", ".join(desc))
+                elif verdict is None:
+                    verdict = "ok"
+    if verdict == "ok":
+        rule.ok(dm.loc(rets[0]), dm.fq, "returns (s // d, s - (s // d)*d)", "Python's floor division and modulo on every path with checks on")
+    elif verdict == "violation":
+        rule.violation(dm.loc(rets[0]), dm.fq, "returns a pair with residue %s" % detail, "quotient/remainder hints are not Python's floor "
+                       "division and modulo", "divmod/hints")
+    else:
+        rule.undecided(dm.loc(), dm.fq, "divmod hints", detail or "no tuple return found")
     for name, idx in (("__floordiv__", 0), ("__mod__", 1)):
         f = lc.methods[name]
         rr = [r for r in rets_of(f) if isinstance(r.value, ast.Subscript)]
@@ -351,18 +367,48 @@ def rule_divisor(repo, rule):
         uses = [n for n in ast.walk(fi.node) if isinstance(n, ast.BinOp) and isinstance(n.op, (ast.FloorDiv, ast.Mod, ast.Div))
                 and norm(n.right) in (o_, "%s.value" % o_)] + \
                [n for n in ast.walk(fi.node) if isinstance(n, ast.Call) and norm(n.func).endswith("fieldinverse") and norm(n.args[0]) == o_]
+        from ..hints import paths_to as _pt
+        from .c07 import excludes_zero, short_circuit_conds
         for u in uses:
             operand = u.right if isinstance(u, ast.BinOp) else u.args[0]
             kind = norm(operand)
-            from ..hints import paths_to as _pt
             upaths = _pt(fi.node, u)
-            ok = bool(upaths) and all(any(c is t.test and not pol and norm(t.test) == "%s == 0" % kind for t in tests for c, pol in pth.conds)
-                                      for pth in upaths)
-            if ok:
-                rule.ok(fi.loc(u), fi.fq, "%s: `%s == 0` raises before `%s`" % (name, kind, norm(u)[:50]))
+            # (a) the division itself is never reached with a zero divisor: on every path some governing test - an earlier `if`,
+            #     or an earlier operand of the `and` / conditional expression it sits in - excludes zero
+            sc = short_circuit_conds(u)
+            prot = bool(upaths) and all(
+                any(c is t.test and not pol and norm(t.test) == "%s == 0" % kind for t in tests for c, pol in pth.conds)
+                or excludes_zero([(c, pol, False) for c, pol in pth.conds] + sc, kind) for pth in upaths)
+            # (b) with checks on, a zero divisor raises: some `if <divisor> == 0: raise` is reached on a path whose other
+            #     conditions are type tests, `ignore_errors()` being false, or tests that a zero divisor falsifies
+            def _falsified_by_zero(c_):
+                vals = c_.values if isinstance(c_, ast.BoolOp) and isinstance(c_.op, ast.And) else [c_]
+                return any(norm(v_).replace(" ", "") in ("%s!=0" % kind, "0!=%s" % kind, kind) for v_ in vals)
+            raises = False
+            for rz in [x for x in ast.walk(fi.node) if isinstance(x, ast.Raise)]:
+                for pth in _pt(fi.node, rz):
+                    zero_here = False
+                    fine = True
+                    for c, pol in pth.conds:
+                        tc = norm(c).replace(" ", "")
+                        if tc in ("%s==0" % kind, "0==%s" % kind, "not%s" % kind):
+                            zero_here = zero_here or pol
+                            fine = fine and pol
+                        elif not pol and _falsified_by_zero(c):
+                            zero_here = True
+                        elif "isinstance(" in tc or (tc == "ignore_errors()" and not pol):
+                            pass
+                        else:
+                            fine = False
+                    if fine and zero_here:
+                        raises = True
+            if prot and raises:
+                rule.ok(fi.loc(u), fi.fq, "%s: `%s` is not reached with %s == 0, and a zero divisor raises when checks are on" % (name, norm(u)[:50], kind))
             else:
                 rule.violation(fi.loc(u), fi.fq, "%s: `%s` without a preceding zero test of %s" % (name, norm(u)[:60], kind),
-                               "division by zero is not turned into the documented ValueError", "%s/zero/%s" % (fi.fq, kind))
+                               "division by zero is not turned into the documented ValueError" if prot else
+                               "the division can be reached with a zero divisor (ZeroDivisionError instead of the documented ValueError)",
+                               "%s/zero/%s" % (fi.fq, kind))
 
 
 def rule_domain(repo, rule):
